@@ -191,6 +191,22 @@ func c12r2(c *Check) {
 		if okLoop {
 			loops = loopsOf(disp[0].Parent())
 			okLoop = innermostLoop(loops, disp[0].Block()) != nil
+			if !okLoop {
+				// the per-line code is a helper: every call of it (from the handler) sits in the read loop
+				okLoop = true
+				n := 0
+				for _, e := range c.P.CG().In[disp[0].Parent()] {
+					if e.Kind != EdgeCall || e.Dyn {
+						okLoop = false
+						continue
+					}
+					n++
+					if innermostLoop(loopsOf(e.Caller), e.Site.Block()) == nil {
+						okLoop = false
+					}
+				}
+				okLoop = okLoop && n > 0
+			}
 		}
 		c.Judge(nGo == 0 && okLoop, FuncName(fn)+" dispatches each line synchronously, once", c.AtFn(fn), "one Dispatch call site, inside the read loop, no go statement", fmt.Sprintf("%d go statements / %d dispatch sites: lines can be processed out of order, twice, or after the read buffer was reused", nGo, len(disp)))
 		if len(disp) == 1 && h[2] != "Handle" || len(disp) == 1 && h[1] == "*Plain" {
@@ -245,6 +261,26 @@ func c12r2(c *Check) {
 			}
 		}
 	})
+	// one handler invocation per stream: a second Handle on the same connection starts a fresh
+	// framing state, so whatever the first one had buffered is dispatched as a fragment
+	nHandle := 0
+	for _, f := range c.P.Funcs {
+		if fnPkg(f) != c.P.Pkg("input").Types {
+			continue
+		}
+		f := f
+		allInstrs(f, func(in ssa.Instruction) {
+			call, ok := in.(*ssa.Call)
+			if !ok || !strings.HasSuffix(calleeName(call.Common()), "input.Handler).Handle") {
+				return
+			}
+			nHandle++
+			c.Judge(innermostLoop(loopsOf(f), in.Block()) == nil, FuncName(f)+" invokes the handler once per stream", c.At(in), "Handler.Handle is not called in a loop", "Handler.Handle is invoked repeatedly on the same stream (in a loop): each call starts with a fresh reader, so a line that was only partly received when the previous call returned (e.g. on a read timeout) is processed as two fragments")
+		})
+	}
+	if nHandle == 0 {
+		anchorFail("package input: no call to Handler.Handle")
+	}
 	c.Judge(okH, "input.handleData treats a datagram as its own stream", c.AtFn(hd), "Handler.Handle(bytes.NewReader(datagram))", "a UDP datagram is not handed to the handler as a complete, separate stream")
 	// TCP: one goroutine per connection, which runs the handler to completion
 	atc := c.P.Func("input", "*Listener", "acceptTcpConn")
